@@ -247,6 +247,83 @@ def check_structure(ctx, levels, places, offset, fm_title=False):
     return None
 
 
+# ------------------------------------------------------------ directives that allow sections in their body (match_titles=True), nested
+
+
+def _register_titles_directive():
+    from docutils import nodes
+    from docutils.parsers.rst import Directive, directives
+
+    class SymxTitles(Directive):
+        has_content = True
+
+        def run(self):
+            node = nodes.container()
+            node["classes"].append("symx-titles")
+            self.state.nested_parse(self.content, self.content_offset, node, match_titles=True)
+            return [node]
+
+    directives.register_directive("symx-titles", SymxTitles)
+
+
+def titles_doc(inner_pos, inner_heading, l1, l2):
+    inner = [":::{symx-titles}"] + (["#" * 2 + " Inner", ""] if inner_heading else []) + ["inner para", ":::", ""]
+    body = []
+    if inner_pos == 0:
+        body += inner
+    body += ["#" * l1 + " First", "", "p1", ""]
+    if inner_pos == 1:
+        body += inner
+    body += ["#" * l2 + " Second", "", "p2", ""]
+    if inner_pos == 2:
+        body += inner
+    return "\n".join(["# Top", "", "::::{symx-titles}"] + body + ["::::", "", "## After", "", "end"]) + "\n"
+
+
+def check_titles_doc(text, inner_heading, real=False):
+    from docutils import nodes
+
+    _register_titles_directive()
+    doc, warn = CR.publish(text, {"myst_enable_extensions": ["colon_fence"], "doctitle_xform": False, "report_level": 5}, real=real)
+    rubrics = [r.astext() for r in doc.findall(nodes.rubric)]
+    titles = [s_[0].astext() for s_ in doc.findall(nodes.section) if len(s_) and isinstance(s_[0], nodes.title)]
+    want = ["Top", "First", "Second", "After"] + (["Inner"] if inner_heading else [])
+    if rubrics:
+        return ("titles-directive-heading-became-rubric", "headings %r directly in the body of a match_titles directive became rubrics (sections %r)" % (rubrics, titles))
+    if sorted(titles) != sorted(want):
+        return ("titles-directive-sections", "sections %r, expected %r" % (titles, want))
+    # Top and After are document-level sections: After must be a child of Top (level 2 under level 1)
+    top = [s_ for s_ in doc.findall(nodes.section) if s_[0].astext() == "Top"][0]
+    after = [s_ for s_ in doc.findall(nodes.section) if s_[0].astext() == "After"][0]
+    if after.parent is not top:
+        return ("surrounding-structure-affected", "the heading after the directive is under %s" % (after.parent.tagname,))
+    return None
+
+
+def make_titles_docs(eng):
+    CR.setup_pipeline()
+    c = CR.Choice(eng)
+    state = {}
+    eng.witness_fn = lambda m: dict(state)
+
+    def body():
+        c.reset()
+        inner_pos, inner_heading, l1, l2 = c.choose(4), bool(c.choose(2)), 1 + c.choose(3), 1 + c.choose(3)
+        text = titles_doc(inner_pos, inner_heading, l1, l2)
+        state.update(titles_doc=text, inner_heading=inner_heading and inner_pos < 3)
+        try:
+            err = check_titles_doc(text, inner_heading and inner_pos < 3)
+        except Exception as exc:  # noqa
+            eng.fail("render-raises", "%s: %s" % (type(exc).__name__, exc))
+        if err:
+            eng.fail(*err)
+        eng.passed(3)
+        eng.note("structure")
+        return "ok"
+
+    return body
+
+
 def families(tier, seed):
     q = tier == "quick"
     F = []
@@ -256,6 +333,8 @@ def families(tier, seed):
     for k in ([2, 3] if q else [3, 4]):
         F.append(Family("mixed/K%d" % k, make_seq, "all sequences of %d headings (levels 1-4 for K3 in the quick tier), each at top level, in a block quote, in a list item or in a nested parse (match_titles on/off)" % k,
                         args=dict(k=k, places=PLACES, levels="1234" if (q and k >= 3) else "123456"), nontrivial="structure", max_forks=200000, required=(k <= 3)))
+    F.append(Family("titles-directive-docs", make_titles_docs, "documents with a directive that allows sections in its body (match_titles=True) containing two headings (levels 1-3) and a second such directive before / between / after them, with or without its own heading: "
+                    "headings directly in such a body stay sections, the structure after the directive is unaffected", nontrivial="structure", max_forks=10000))
     F.append(Family("titles-quote/K3", make_seq, "3 headings (levels 1-3), each at top level, directly in a match_titles nested parse, or inside a block quote inside such a nested parse (sections only directly under the directive's node)",
                     args=dict(k=3, places=["top", "nested-titles", "nested-titles+quote"], levels="123"), nontrivial="structure", max_forks=200000))
     for k in ([3] if q else [3, 4]):
@@ -274,6 +353,12 @@ def families(tier, seed):
 
 
 def replay(label, witness):
+    if "titles_doc" in witness:
+        try:
+            err = check_titles_doc(witness["titles_doc"], witness["inner_heading"], real=True)
+        except Exception as e:  # noqa
+            return ("C05/exception:%s" % type(e).__name__, "%r" % (e,))
+        return ("C05/%s" % err[0], "document %r: %s" % (witness["titles_doc"], err[1])) if err else None
     levels, places, offset = witness["levels"], witness["places"], witness.get("offset", 0)
     fm_title = witness.get("fm_title", False)
     ctx = CR.new_context(real=True, config={"title_to_header": True} if fm_title else None)
